@@ -65,6 +65,11 @@ SetUnits(u) ==
   /\ tunit' = u
   /\ UNCHANGED <<ts, tmax, dt, interval, policy>>
   /\ Step("set_units", [u |-> u])
+(* the environment: the caller overwrites, in place, the lists / arrays / units-system objects it handed to setters earlier.   *)
+(* The script holds its own, so this is a stuttering step for the script - named so that TLC places it anywhere in a history    *)
+CallerEdits ==
+  /\ UNCHANGED <<tunit, ts, tmax, dt, interval, policy>>
+  /\ Step("caller_edits", [x |-> 0])
 Copy ==
   /\ UNCHANGED <<tunit, ts, tmax, dt, interval, policy>>
   /\ Step("copy", [x |-> 0])
@@ -76,7 +81,7 @@ RoundTrip ==
   /\ Step("roundtrip", [x |-> 0])
 
 US == TUnits \cup {"bare"}
-Kinds == {"set_t_sample", "set_t_max", "set_t_max_default", "set_dt", "set_interval", "set_policy", "set_units", "copy", "roundtrip"}
+Kinds == {"set_t_sample", "set_t_max", "set_t_max_default", "set_dt", "set_interval", "set_policy", "set_units", "copy", "roundtrip", "caller_edits"}
 OfKind(k) == CASE k = "set_t_sample" -> \E l \in Lists, u \in US : SetTSample(l, u)
                [] k = "set_t_max" -> \E v \in Vals, u \in US : SetTMax(v, u)
                [] k = "set_t_max_default" -> SetTMaxDefault
@@ -84,7 +89,7 @@ OfKind(k) == CASE k = "set_t_sample" -> \E l \in Lists, u \in US : SetTSample(l,
                [] k = "set_interval" -> \E v \in Vals, u \in US : SetInterval(v, u)
                [] k = "set_policy" -> \E p \in Policies : SetPolicy(p)
                [] k = "set_units" -> \E u \in TUnits : SetUnits(u)
-               [] k = "copy" -> Copy [] k = "roundtrip" -> RoundTrip
+               [] k = "copy" -> Copy [] k = "roundtrip" -> RoundTrip [] k = "caller_edits" -> CallerEdits
 Next == /\ Len(hist) < Depth /\ pick' = pick /\ \E k \in Kinds : OfKind(k)
 GenNext ==
   \/ /\ pick = "none" /\ Len(hist) < Depth /\ pick' \in Kinds
